@@ -22,13 +22,13 @@ import (
 func init() { gens["c03.acc"] = genC03Acc }
 
 var (
-	c03Seps     = []string{"/", ":", "?", "&", "=", "#", "@", "!", "~", "+", ",", ";", "'", "\"", "(", "|", "^", "*", "\\", "$", "[", "{", "<", "`"}
-	c03NonSeps  = []string{"a", "Z", "0", "9", ".", "%", "_", "-", " ", "m", "Q"}
-	c03Schemes  = []string{"http", "https", "ws", "wss", "http", "https", "HTTP", "Https", "wS", "ftp", "htt", "httpss", "wsss", "", "xhttp"}
-	c03SchSeps  = []string{"://", "://", "://", "://", "://", ":/", ":", "//", ":///", "://:"}
-	c03Subs     = []string{"", "", "", "x.", "www.", "a.b.", "A.", "WWW.", "a-b_c.1.", "x", "not", ".", "..", "x/.", "a b.", "x:y.", "x%.", "x.y", "-.", "_."}
-	c03Junk     = []string{"", "", "", "x", "/", "http://", "a/b?c=", " ", "|", "^", "*", "zz.", "%20", "\\"}
-	c03Shorts   = []string{"a", "ab", "abc", "^", "^^", "*^", "^*", "a^", "^a", "a*", "*a", "a|", "|a", "||a", "a||", "|||", "||^", "|^", "^|", "||*", "|*", "*|", "|a|", "||a|", "a|b", ".", "?", "a.b", "\\", "\\|", "|\\", "/*", "a/*", "//*", "||/*", "|/*", "*/*", "^/*", " ", "a ", "%", "-_", "Ab", "aB|", "|Z", "a^|", "||a^|", "(", ")", "[a]", "a+", "a{2}", "$", "a$", "^$",
+	c03Seps    = []string{"/", ":", "?", "&", "=", "#", "@", "!", "~", "+", ",", ";", "'", "\"", "(", "|", "^", "*", "\\", "$", "[", "{", "<", "`"}
+	c03NonSeps = []string{"a", "Z", "0", "9", ".", "%", "_", "-", " ", "m", "Q"}
+	c03Schemes = []string{"http", "https", "ws", "wss", "http", "https", "HTTP", "Https", "wS", "ftp", "htt", "httpss", "wsss", "", "xhttp"}
+	c03SchSeps = []string{"://", "://", "://", "://", "://", ":/", ":", "//", ":///", "://:"}
+	c03Subs    = []string{"", "", "", "x.", "www.", "a.b.", "A.", "WWW.", "a-b_c.1.", "x", "not", ".", "..", "x/.", "a b.", "x:y.", "x%.", "x.y", "-.", "_."}
+	c03Junk    = []string{"", "", "", "x", "/", "http://", "a/b?c=", " ", "|", "^", "*", "zz.", "%20", "\\"}
+	c03Shorts  = []string{"a", "ab", "abc", "^", "^^", "*^", "^*", "a^", "^a", "a*", "*a", "a|", "|a", "||a", "a||", "|||", "||^", "|^", "^|", "||*", "|*", "*|", "|a|", "||a|", "a|b", ".", "?", "a.b", "\\", "\\|", "|\\", "/*", "a/*", "//*", "||/*", "|/*", "*/*", "^/*", " ", "a ", "%", "-_", "Ab", "aB|", "|Z", "a^|", "||a^|", "(", ")", "[a]", "a+", "a{2}", "$", "a$", "^$",
 		"a.*", "a.**", "||a.*", "||cdn.example.*", "|https://ads.*", "/static/v1.**", "a.b.*|", "a\\*", "a.^", "a.*b", "a*.*"}
 	c03Literals = "abcxyzABCXYZ019._-%/:?&= "
 )
